@@ -752,7 +752,9 @@ def run_entry(owner_name, owner, name, f, argtypes, ret):
                 if vpool.dispatches() > 0:
                     dispatched = True
                 modename = {1: "seq", 2: "thr", 3: "thr_delay"}[mode]
-                if got != base:
+                # when the operation raises, which elements were already written depends on where in its sub-range the
+                # failing element sits: there is no "result", only the outcome (raise, exception class) is compared
+                if (got[:2] != base[:2]) if base[0] == "raise" else (got != base):
                     what = "outcome" if got[0] != base[0] or (got[0] == "raise" and got[1] != base[1]) else ("result" if got[1] != base[1] else "mutated_argument")
                     st = vpool.stats()
                     R.fail("partition_dependence:%s.%s:%s:%s" % (owner_name, name, modename, what), sig=sigtxt, kinds=kk, n=n, pool_seed=s,
